@@ -85,6 +85,8 @@ def tag_value(field, k, ti, li, si, extra=0):
         return ((cid * 3 + k * 5 + extra * 11) % 64) / 64.0
     if field[0] == "q":
         return float(500 + (cid % 100) + 2 * extra)
+    if field not in ("extra", "spread2", "tagf"):
+        return float(7300 + 10 * k + cid)       # a column whose name differs from another one only in case
     return float(7000 + 10 * k + cid)
 
 
@@ -165,6 +167,9 @@ def generate(rng, profile):
     q_world = sorted(rng.sample(QUANTILES, rng.randint(1, 3))) if rng.random() < p.get("p_q", 0.3) else []
     others_world = rng.sample(["extra", "spread2", "tagf"], rng.randint(1, 2)) if rng.random() < p.get("p_other", 0.4) else []
 
+    if others_world and (int(times[0]) // 3600 + nS + nT) % 5 == 0:
+        # two columns whose names differ only in case (Tmax/tmax); decided from what has been drawn already
+        others_world = others_world + [others_world[0].capitalize()]
     obs_holders = [k for k in range(n_parties) if rng.random() < p.get("p_has_obs", 0.75)]
     if not obs_holders and rng.random() < 0.95:
         obs_holders = [rng.randrange(n_parties)]
